@@ -55,7 +55,7 @@ def run_target(name, exe, idx, seed, runs, scratch, thorough):
             break
         prefix = os.path.join(scratch, 'art-%s-%d-%d-' % (name, idx, attempt))
         cmd = [exe, '-runs=%d' % remaining, '-seed=%d' % (seed * 1000 + idx * 10 + attempt + 1), '-max_len=%d' % TARGETS[name][1], '-timeout=1200',
-               '-rss_limit_mb=4096', '-detect_leaks=0', '-print_final_stats=1', '-artifact_prefix=' + prefix, '-dict=' + os.path.join(FUZZ, 'dict', name + '.dict')] + dirs
+               '-rss_limit_mb=4096', '-detect_leaks=0', '-use_value_profile=1', '-print_final_stats=1', '-artifact_prefix=' + prefix, '-dict=' + os.path.join(FUZZ, 'dict', name + '.dict')] + dirs
         try:
             p = subprocess.run(cmd, stdout=subprocess.PIPE, stderr=subprocess.PIPE, env=env, timeout=14400 if thorough else 1500)
         except subprocess.TimeoutExpired:
